@@ -24,7 +24,10 @@ RULE = ("op sequences over {open_job(sp), mutate the caller's mapping (top level
         "with >=2 candidate ids; distinct by the op list. Every case also varies what the model does not contain: "
         "how each Project object is obtained (init_project / get_project / constructor; absolute, relative to the cwd, "
         "with '..', trailing separator), os.chdir between the operations (always inside the scratch directory), and "
-        "the names of the project directory and its parent (glob / shell metacharacters, spaces, non-ASCII)")
+        "the names of the project directory and its parent (glob / shell metacharacters, spaces, non-ASCII). Round 4: stray "
+        "workspace entries that merely look like an id ('<id>.bak', '<id>~', 'x<id>', upper case, 31 characters; directories, "
+        "copied job directories, plain files); state points whose nested values are LIVE collections of another job's document "
+        "that is edited in place before init(); a guaranteed pattern 'Project from a relative path, open_job, chdir, init'")
 TRUSTED = [
     "float.__repr__ as oracle table (Section variable frepr)",
     "json.loads(json.dumps(v)) = v is built into the file node written by the model (bytes, Some v)",
